@@ -75,7 +75,7 @@ func c01Raw(rcx *RunCtx) {
 		}
 		w := NewWorld(nil, fs)
 		c := w.Connect()
-		if !c.Start(1<<16, versionStr(ver)) || !c.WalkTo(0, 1, "/b") || Errno(c.RPC(&rc.Tlopen{Fid: 1, Flags: 2})) != 0 ||
+		if !c.Start(1<<17, versionStr(ver)) || !c.WalkTo(0, 1, "/b") || Errno(c.RPC(&rc.Tlopen{Fid: 1, Flags: 2})) != 0 ||
 			!c.WalkTo(0, 2, "/a") || Errno(c.RPC(&rc.Tlopen{Fid: 2, Flags: 0})) != 0 || !c.WalkTo(0, 3, "/l") || !c.WalkTo(0, 4, "/a") || !c.WalkTo(0, 5, "/b") {
 			rcx.Find("C01", "setup", "setup", "setup failed")
 			return
@@ -130,6 +130,10 @@ func c01Raw(rcx *RunCtx) {
 				m = &rc.Tumkdir{Tmkdir: rc.Tmkdir{Dfid: 4, Name: g.name(), Mode: g.u32(), GID: g.u32()}, UID: g.u32()}
 			case 9:
 				m = &rc.Tsymlink{Dfid: 4, Name: g.name(), Target: g.text(), GID: g.u32()}
+				if g.ch(6) == 0 {
+					// the longest strings the format can carry, and their neighbours
+					m = &rc.Tsymlink{Dfid: 4, Name: g.name(), Target: string(nbytes(uint64(i), []int{65535, 65534, 32768, 65535}[g.ch(4)])), GID: g.u32()}
+				}
 			case 10:
 				m = &rc.Tusymlink{Tsymlink: rc.Tsymlink{Dfid: 4, Name: g.name(), Target: g.text(), GID: g.u32()}, UID: g.u32()}
 			case 11:
@@ -157,7 +161,7 @@ func c01Raw(rcx *RunCtx) {
 					m = &rc.Tucreate{Tlcreate: rc.Tlcreate{Fid: 9, Name: g.name(), Flags: g.u32(), Mode: g.u32(), GID: g.u32()}, UID: g.u32()}
 				}
 			}
-			if len(rc.Encode(0, m)) > 1<<16 {
+			if len(rc.Encode(0, m)) > 1<<17 {
 				continue
 			}
 			mark := len(fs.Calls)
